@@ -207,9 +207,13 @@ class TVec(TSpec):
 class TArr(TSpec):
     """n-d array with symbolic shape (each >= min_size) and uninterpreted elements"""
 
-    def __init__(self, ndim=3, kind="real", min_size=1, shape=None, default_size=5, dask=False):
+    def __init__(self, ndim=3, kind="real", min_size=1, shape=None, default_size=5, dask=False, cand_shapes=()):
         self.ndim, self.kind, self.min_size, self.shape = ndim, kind, min_size, shape
         self.default_size, self.dask = default_size, dask
+        self.cand_shapes = cand_shapes
+
+    def candidates(self, name):
+        return [{f"{name}_shape_{i}": s for i, s in enumerate(shp)} for shp in self.cand_shapes]
 
     def fresh(self, name, path):
         if self.shape is not None:
@@ -654,6 +658,17 @@ def _fftindex(i, n):
     return V.ite(V.compare("<=", i, V.arith("//", V.arith("-", n, 1), 2)), i, V.arith("-", i, n))
 
 
+def exists(interp, fn, *ranges):
+    """exists(lambda i: body, (lo, hi)): some index in range satisfies body"""
+    fn = _callable(interp, fn)
+    names = [z3.Int(V.fresh_name("e")) for _ in ranges]
+    body = fn(*[Sym(v) for v in names])
+    rng = z3.And(*[z3.And(v >= V.lift(lo), v < V.lift(hi)) for v, (lo, hi) in zip(names, ranges)])
+    bt = V._bool_term(body) if is_sym(body) else z3.BoolVal(bool(body))
+    return Sym(z3.Exists(names, z3.And(rng, bt)))
+
+
+exists._wants_interp = True
 forall._wants_interp = True
 forall_real._wants_interp = True
 
@@ -670,6 +685,7 @@ def arr_eq(a, b):
 
 
 HELPERS = {
+    "exists": exists,
     "arr_eq": arr_eq,
     "close": lambda a, b, tol=None: V.compare("==", a, b),
     "forall": forall, "forall_real": forall_real, "implies": V.implies, "ite": V.ite, "shape_eq": shape_eq,
